@@ -389,9 +389,14 @@ fn state_tags(model: &Model, d: &SymDump, anomalies: &[String]) -> Vec<&'static 
             }
         }
     }
-    for c in d.clients.keys() {
+    for (c, dc) in &d.clients {
         if !m.clients.contains_key(c) {
             t.extend(["C02", "C18", "C13"]);
+            // a client that never had a request accepted, yet owns a latest version or a
+            // snapshot: somebody else's
+            if dc.latest != NIL || dc.snapshot.is_some() {
+                t.push("C09");
+            }
         }
     }
     t.sort();
@@ -1438,9 +1443,9 @@ fn static_mon(s: &str) -> &'static str {
     MONITORS.iter().find(|m| **m == s).copied().unwrap_or("MACHINERY")
 }
 
+/// An implementation name nobody knows is a defect of the harness: stop, do not explore less.
 fn spec_from_name(n: &str) -> Option<SutSpec> {
-    use crate::sut::*;
-    [MEM_LIB, SQL_LIB, SQL_LIB_REOPEN, MEM_HTTP, SQL_HTTP, MEM_HTTP_ALLOW, SQL_HTTP_ALLOW].into_iter().find(|s| s.name() == n)
+    Some(crate::sut::spec_from_name(n).unwrap_or_else(|| panic!("unknown implementation name {n:?} in worker parameters")))
 }
 
 pub fn params_to_json(p: &SeqParams) -> Value {
